@@ -353,6 +353,36 @@ theorem scratch_lax_race_counterexample :
     (sexec user [0, 0, 0, 0, 0, 0, 0, 1, 0] (sinit ⟨none, 0⟩)).pc 0 = .fin 1 true := by
   decide
 
+/-- **percall_context_no_interference.**  Every site that evaluates an XPath test builds the evaluation
+    context inside the call (`shared = false`; the table of sites is regenerated from the source on every run):
+    whatever the interleaving of any number of threads, with any number of statements between the store of the
+    variable and its read, every test is evaluated on the value of its own call, and a thread that has finished has
+    evaluated exactly its own values, in order — the single-threaded result. -/
+theorem percall_context_no_interference (gap : Nat) (vals : Nat → List Nat) (sched : List Nat) (t : Nat) :
+    let c := xexec false gap sched (xinit vals)
+    (∃ rest, (c.th t).res ++ rest = vals t) ∧ ((c.th t).finished = true → (c.th t).res = vals t) := by
+  intro c
+  have h := (xexec_ok gap vals sched (xinit vals) (fun x => ⟨by simp [xinit]⟩) t).order
+  refine ⟨⟨_, by rw [← List.append_assoc]; exact h⟩, ?_⟩
+  intro hf
+  simp only [XTh.finished, Bool.and_eq_true, List.isEmpty_iff, beq_iff_eq] at hf
+  rw [hf.1, hf.2] at h
+  simpa using h
+
+/-- a single thread on a SHARED context is still right (the variable is overwritten before each evaluation):
+    this is why a single-threaded test-suite cannot see the sharing -/
+theorem shared_context_alone (v w : Nat) :
+    ((xexec true 1 [0, 0, 0, 0, 0, 0, 0, 0, 0, 0] (xinit (fun t => if t = 0 then [v, w] else []))).th 0).res = [v, w] := by
+  simp [xexec, xstep, xinit, upd]
+
+/-- FULL statement for a shared context (false): thread 0 stores 7, thread 1 stores 700 and evaluates, thread 0
+    evaluates its test on 700 (seeded change C18-5: a class-level XPathContext whose `variables` dict is shared by
+    `copy`). -/
+theorem shared_context_race_counterexample :
+    let c := xexec true 1 [0, 0, 1, 1, 1, 1, 1, 0, 0, 0] (xinit (fun t => if t = 0 then [7] else if t = 1 then [700] else []))
+    (c.th 0).res = [700] ∧ (c.th 1).res = [700] ∧ (c.th 0).finished = true := by
+  decide
+
 end caches
 
 /-! ### non-vacuity -/
@@ -417,5 +447,10 @@ example :
     let c := Cache.exec (fun k : Nat => k + 10) [0, 0, 1, 1, 0, 1, 1, 1, 0, 0, 0, 0, 1, 1, 1, 1, 0, 0] (Cache.init Cache.empty prog)
     (c.th 0).rets = [(3, 13), (3, 13)] ∧ (c.th 1).rets = [(3, 13), (4, 14)] ∧ (c.th 0).finished = true := by
   decide
+
+/-- the schedule of `shared_context_race_counterexample` with per-call contexts: each thread tests its own value -/
+example :
+    let c := Cache.xexec false 1 [0, 0, 1, 1, 1, 1, 1, 0, 0, 0] (Cache.xinit (fun t => if t = 0 then [7] else if t = 1 then [700] else []))
+    (c.th 0).res = [7] ∧ (c.th 1).res = [700] ∧ (c.th 0).finished = true := by decide
 
 end XsVerif.Props.C18
